@@ -1,0 +1,33 @@
+// SPDX-FileCopyrightText: 2026 The Pion community <https://pion.ly>
+// SPDX-License-Identifier: MIT
+
+//go:build verif
+
+package dtlshandshake
+
+import (
+	dtlsflight "github.com/pion/dtls/v3/internal/flight"
+)
+
+// VerifFlightInfo describes the flight handed to VerifFlightHook.
+type VerifFlightInfo struct {
+	IsClient bool
+	Is13     bool
+	Flight   string
+	State    any
+	Cache    *dtlsflight.Cache
+}
+
+// VerifFlightHook, when set by a verification harness, may omit, replace or
+// alter the packets of a freshly generated flight before they are sequenced,
+// committed to the transcript and sent (a scriptable rogue endpoint). It exists
+// only in builds tagged "verif".
+var VerifFlightHook func(info VerifFlightInfo, pkts []*dtlsflight.Packet) []*dtlsflight.Packet //nolint:gochecknoglobals
+
+func verifRewriteFlight(info VerifFlightInfo, pkts []*dtlsflight.Packet) []*dtlsflight.Packet {
+	if hook := VerifFlightHook; hook != nil {
+		return hook(info, pkts)
+	}
+
+	return pkts
+}
